@@ -171,27 +171,23 @@ class QintImp(int, Qtype):
         (x << 3) + (x << 1) # Here 10*x is computed as x*2^3 + x*2
         """
 
-        # Multiply t_num by the nearest n | 2**n < t_const
-        n = 1
-        while 2**n <= const:
-            n += 1
-        if 2**n > const:
-            n -= 1
-
         result_ttype = cast(TType, result_type)
 
-        t_num_r = result_type.shift_left((result_ttype, t_num[1]), n)
+        # Sum t_num << n for every bit n set in the constant
+        t_num = result_type.fill((result_ttype, t_num[1]))
+        res = None
+        n = 0
+        while 2**n <= const:
+            if const & 2**n:
+                term = result_type.shift_left((result_ttype, t_num[1]), n)
+                if res is None:
+                    res = (result_ttype, term[1])
+                else:
+                    res = result_type.add((result_ttype, res[1]), term)
+            n += 1
 
-        # Shift t_const by t_const - 2**n
-        r = const - 2**n
-        if r > 0:
-            # Add the shift result to t_num
-            res = result_type.add(
-                (result_ttype, t_num_r[1]),
-                result_type.shift_left((result_ttype, t_num[1]), int(r / 2)),
-            )
-        else:
-            res = (result_ttype, t_num_r[1])
+        if res is None:
+            res = result_type.const(0)
 
         return res
 
